@@ -1,7 +1,20 @@
+"""C10 - union / intersection / difference compute the mathematical result."""
 from props import _generic as g
+
+INPLACE = ["set_ior", "set_isub", "set_iand", "set_ixor", "TreeSet_ior", "TreeSet_isub", "TreeSet_iand", "TreeSet_ixor",
+           "set_operation", "initSetIteration", "bucket_sub", "bucket_or", "bucket_and", "Generic_set_xor",
+           "set_isdisjoint", "TreeSet_isdisjoint"]
 
 
 def run(ctx):
     fns = g.run_pyvc(ctx, "C10")
+    ctx.cvc(["II"] if ctx.tier == "quick" else ["II", "OO", "fs"], ["T-USE"], functions=INPLACE)
     ctx.standin("setop_rt", families=tuple("OO,II".split(",")))
-    return "exploration", "bounded stand-in setop_rt (no obligation of the deductive engines serves C10 yet)"
+    return "proof", (
+        "Engine P: union, intersection and difference of _base.py are proved from their real bodies against the mathematical "
+        "result over keys (new strictly sorted container, exact key set, None rules, operands unmodified), with the cursor "
+        "(_SetIteration.advance) proved against its abstraction and the prefix-set lemmas proved by induction (%d targets); every "
+        "loop head carries a vacuity guard. Engine C, T-USE on the operator / in-place entry points of the set algebra: the "
+        "operands' vectors are only accessed on activated nodes (operators are type slots: entered on possible ghosts). "
+        "C results, operators, in-place forms, plain iterables, lazy views and stored/ghost operands are the bounded stand-in setop_rt."
+        % len(fns))
